@@ -14,6 +14,8 @@ import (
 
 func init() { register("C01", runC01) }
 
+var c01LimitedWalks int
+
 type c01Walk struct {
 	ds  string
 	ops []catchOp
@@ -99,11 +101,14 @@ func runC01(args []string) {
 			if w == walks-1 {
 				// the last walk runs on a model that has a variable limit configured: direct setting, synchronising and
 				// decoding are not subject to it (only proposals are judged), so the observables are those of an unlimited model
-				_, allActive := c03Range(ds, 4)
-				if allActive > 1 {
-					lim := math.Floor(0.4*allActive) + 0.005
-					c = catchOpen(txPath(ds), parameters.Map{catchLimitKeys[4]: lim})
-					stats["walks_under_a_cost_limit"]++
+				c01LimitedWalks++
+				k := c01LimitedWalks % 6
+				asIs, allActive := c03Range(ds, k)
+				lim := asIs + 0.4*(allActive-asIs) // between the extremes: for a pollutant the as-is state itself lies beyond it
+				lim = math.Floor(lim*catchVarScale[k])/catchVarScale[k] + 0.5/catchVarScale[k]
+				if math.Abs(allActive-asIs) > 2/catchVarScale[k] && lim > 0 {
+					c = catchOpen(txPath(ds), parameters.Map{catchLimitKeys[k]: lim})
+					stats["walks_under_a_limit_on_"+catchVarNames[k]]++
 				}
 			}
 			ops := make([]catchOp, 0, walkLen)
